@@ -74,6 +74,9 @@ def evolving_universe(ctx, rng, fam, k, steps, fault_rate=0.0):
             # a hook raising somewhere in the call (post hooks included): what the call leaves behind
             # in the objects must still give fresh answers afterwards
             plan = ("once", rng.randrange(0, 6))
+        elif call[0] == "setparent" and rng.random() < 0.15:
+            # restricted re-entrancy: the pre hook of this parent assignment detaches another child of its parent argument
+            plan = ("evict", rng.choice([0, 2]))
         hist.append([F._jsonable(call), F._jsonable(plan)])
         pre = snap
         ex = F.run_call(rec, ffam, call, F.Plan(plan), snaps_on=False)
@@ -86,7 +89,7 @@ def evolving_universe(ctx, rng, fam, k, steps, fault_rate=0.0):
                           {"family": fam, "state": [list(c) for c in ch0], "history": list(hist)}, expected="a consistent forest after every call", observed=probs[:4])
             return
         par, ch = [p for p, _ in snap], [list(c) for _, c in snap]
-        if ex.outcome == "returned" and not ex.faults:
+        if ex.outcome == "returned" and not ex.faults and not ex.evicted:
             # the reference state after a successful call is what the call is specified to produce, not what the
             # library's own (possibly memoised) children/parent properties report afterwards
             out, mch, _ = M.model_call(M.ch_of(pre), call, F.base_family(ffam))
@@ -110,7 +113,7 @@ def replay_universe(case):
     snap = rec.snapshot()
     states.append((rec.nodes, [p for p, _ in snap], [list(c) for _, c in snap]))
     for ent in case["history"]:
-        if len(ent) == 2 and isinstance(ent[1], list) and ent[1] and ent[1][0] in ("none", "once"):
+        if len(ent) == 2 and isinstance(ent[1], list) and ent[1] and ent[1][0] in ("none", "once", "evict"):
             call, plan = ent
         else:
             call, plan = ent, ["none"]
@@ -118,7 +121,7 @@ def replay_universe(case):
         ex = F.run_call(rec, ffam, tup(call), F.Plan(tup(plan)), snaps_on=False)
         snap = rec.snapshot()
         par, ch = [p for p, _ in snap], [list(c) for _, c in snap]
-        if ex.outcome == "returned" and not ex.faults and not M.invariant(pre):
+        if ex.outcome == "returned" and not ex.faults and not ex.evicted and not M.invariant(pre):
             out, mch, _ = M.model_call(M.ch_of(pre), tup(call), F.base_family(ffam))
             if out in ("ok", "noop"):
                 par, ch = gen.parents_of(mch), [list(c) for c in mch]
